@@ -11,7 +11,8 @@ CONSTANTS MaxH,        \* highest block number
 
 \* "a","b","c": distinct transactions; <<"a","a">>: the same transaction twice in one block
 TxSeqsQuick == {<<>>, <<"a">>, <<"a", "b">>, <<"b", "a">>, <<"a", "a">>, <<"c">>}
-TxSeqsThorough == TxSeqsQuick \cup {<<"b">>, <<"c", "a">>, <<"a", "b", "a">>, <<"d">>}
+TxSeqsThorough == TxSeqsQuick \cup {<<"b">>, <<"c", "a">>}
+TxSeqsDeep == TxSeqsThorough \cup {<<"a", "b", "a">>, <<"d">>}   \* 30.7 M distinct states, 24 min with 14 workers (measured once)
 
 VARIABLES s, g, np, nf, hist
 vars == <<s, g, np, nf, hist>>
